@@ -1213,3 +1213,8 @@ P.theorems = P.theorems + [
     ("TracklibVerif.Tie.C08", "TV.Tie.C08.tie_getCellR", "the translation of the CURRENT source of SpatialIndex.__getCell (range tests, divisions with their ZeroDivisionError, caps min(index, size)) equals the model's executed form getCellR"),
     ("TracklibVerif.Tie.C08", "TV.Tie.C08.tie_isSegmentIntersects_short1", "the translated isSegmentIntersects raises IndexError when the first list has fewer than four numbers"),
 ]
+P.theorems = P.theorems + [
+    ("TracklibVerif.Tie.C08", "TV.Tie.C08.tie_cellsCrossSegment", "the translation of the CURRENT source of SpatialIndex.__cellsCrossSegment (clamped bounds, the two nested range loops, eight comparisons, four straddle tests, append-if-new) returns the model's cellsCross on all arguments, no hypothesis"),
+    ("TracklibVerif.Tie.C08", "TV.Tie.C08.tie_cellsCrossSegment_short1", "the translated __cellsCrossSegment raises IndexError when the first coordinate list has fewer than two numbers"),
+    ("TracklibVerif.Tie.C08", "TV.Tie.C08.tie_cellsCrossSegment_short2", "the translated __cellsCrossSegment raises IndexError when the second coordinate list has fewer than two numbers"),
+]
